@@ -345,7 +345,20 @@ int sqfs_dir_reader_resolve_path(sqfs_dir_reader_t *rd, const char *path,
 				return SQFS_ERROR_NO_ENTRY;
 
 			len = ent->size + 1;
-			ret = strncmp((const char *)ent->name, path, len);
+
+			/*
+			 * If the path component is shorter than the name, it
+			 * cannot match. Don't rely on strncmp for that: a name
+			 * from a corrupted image may contain a null byte and
+			 * would compare equal to a shorter path, after which
+			 * path[len] is beyond the end of the string.
+			 */
+			if (strnlen(path, len) < len) {
+				ret = 1;
+			} else {
+				ret = strncmp((const char *)ent->name,
+					      path, len);
+			}
 			sqfs_free(ent);
 
 			if (ret == 0 &&
